@@ -12,7 +12,9 @@ real run : the REAL transports (SocketStreamTransport with / without sendmsg, SS
 model run: the same chunk list and scripts through the Lean model (Model/Retry.lean, Model/Send.lean) via endriver.
 oracle   : bytes read by the peer are a prefix of the concatenation of the chunks (== it when the call returned),
            the call ended by itself (return / TimeoutError / connection error — never by using up the environment
-           script), number of socket calls <= |data| + waits + 2, waits within the time budget.
+           script), number of socket calls <= |data| + waits + 2, waits within the time budget; with a finite retry_interval
+           every select() wait is <= retry_interval whatever the timeout (also None): a would-block condition the descriptor
+           never signals (selector event `never`) is re-tried, the call never sleeps without a bound (`exhausted hang`).
 """
 from __future__ import annotations
 
@@ -57,7 +59,8 @@ ASSUMPTIONS = [
 ]
 RULE = (
     "case = transport (sendmsg | no sendmsg | TLS) x SC_IOV_MAX x entry point (send_packet | send_all_from_iterable | send_all) x chunk list "
-    "(empty chunks in any position, bytes/bytearray/memoryview/multi-byte memoryview) x timeout x retry_interval x socket script x selector script; "
+    "(empty chunks in any position, bytes/bytearray/memoryview/multi-byte memoryview) x timeout x retry_interval x socket script x selector script "
+    "(ready / expired / never-ready descriptor; no time budget x finite retry_interval over-sampled); "
     "non-trivial = a partial write, a would-block, an error or an empty chunk occurred; distinct by full case digest; "
     "plus oracle-only cases on real sockets / OpenSSL / asyncio, among them every send path of the asyncio adapter x fault "
     "(peer RST, FIN, half-close, own aclose, none) x noticed by the event loop before the send or not x sends in a row"
@@ -208,7 +211,9 @@ def model_input(case: dict, real: list[str]):
     head = f"send {case['tr']} {case['entry']} {1 if code_is_fixed() else 0} {case['iov']} {t} {ri}"
     ops = [f"chunk {h}" for h in case["chunks"]]
     ops += [f"sock {k} {n} {p}" for k, n, p in case["sock"]]
-    ops += [f"sel {k} {d}" for k, d in case["sel"]]
+    # `never d` (the descriptor never signals; only bounded waits come back) is `expired d` for the model: the code under test
+    # must never meet it with an unbounded wait (generated only with a finite retry_interval or a finite timeout)
+    ops += [f"sel {'expired' if k == 'never' else k} {d}" for k, d in case["sel"]]
     return head, ops
 
 
@@ -253,6 +258,21 @@ def oracle(case: dict, real: list[str]) -> str | None:
     if out == "exhausted sock":
         return (f"the call does not terminate: it consumed all {len(case['sock'])} socket answers for {len(data)} bytes "
                 f"and {len(selects)} waits (spin)")
+    # retry_interval ("the maximum wait time to wait for a blocking operation before retrying"): with a finite retry interval
+    # every select() is bounded by it WHATEVER the timeout (also None) — this is what guarantees that a would-block condition
+    # the descriptor never signals (TLS want-read during a write, ...) is still re-tried instead of blocking for ever
+    if case["ri"] is not None:
+        for ln in selects:
+            w = ln.split()[2]
+            if w == "inf" or float(w) > case["ri"]:
+                return (f"select() {'without any timeout' if w == 'inf' else 'for ' + w + ' ticks'} although retry_interval={case['ri']} "
+                        f"(timeout={case['timeout']}): the operation is not re-tried every retry_interval; a condition the "
+                        "descriptor never signals blocks the call for ever")
+    if out == "exhausted hang":
+        if case["ri"] is None and case["timeout"] is None:
+            return None     # no budget, no retry interval, a descriptor that never signals: waiting for ever is what was asked for
+        return ("the call blocks for ever: select() without timeout on a descriptor that never signals the awaited condition "
+                f"(timeout={case['timeout']}, retry_interval={case['ri']})")
     if out == "exhausted sel":
         return f"more waits ({len(selects)}) than the environment blocked the call"
     if out == "rterr":
@@ -357,9 +377,10 @@ def shrink(case: dict):
         yield {**case, "sel": sel[:i] + sel[i + 1:]}
     if case["entry"] != "iterable":
         yield {**case, "entry": "iterable"}
-    if case["timeout"] is not None:
+    never = any(e[0] == "never" for e in sel)     # never-ready descriptor: keep one of the two bounds (see oracle)
+    if case["timeout"] is not None and not (never and case["ri"] is None):
         yield {**case, "timeout": None}
-    if case["ri"] is not None:
+    if case["ri"] is not None and not (never and case["timeout"] is None):
         yield {**case, "ri": None}
     if case["iov"] != 1024 and case["iov"] > 0:
         yield {**case, "iov": 1024}
@@ -437,6 +458,15 @@ def corpus() -> list[dict]:
         cs.append(_case(tr, "packet", [b"abcd"], [(blk, 0, 0), ("sent", 1, 0), (blk, 0, 0), ("sent", 9, 0)],
                         [("ready", 3), ("ready", 0)], timeout=None, ri=None))
         cs.append(_case(tr, "iterable", [b"ab", b"cd"], [("sent", 1, 0), ("reset", 0, 0)], []))
+        # NO time budget, finite retry_interval, a would-block condition the descriptor NEVER signals (selector: only expiries):
+        # the retry-interval wake-ups alone get the operation going again: k blocks = k waits of retry_interval, then it completes
+        for entry in ("packet", "iterable", "all"):
+            for ri_ in (1, 3):
+                for bk in (("eagain", "eintr") if tr != "tls" else ("wantr", "wantw", "sysc")):
+                    cs.append(_case(tr, entry, [b"ab", b"", b"cd"], [(bk, 0, 0), (bk, 0, 1), ("sent", 3, 0), (bk, 0, 0)],
+                                    [("never", 0), ("never", 1), ("never", 0)], timeout=None, ri=ri_))
+        # the same with a finite budget: the waits are min(retry_interval, what is left), then TimeoutError
+        cs.append(_case(tr, "packet", [b"abcd"], [(blk, 0, 0)] * 6, [("never", 0)] * 6, timeout=5, ri=2))
     # SC_IOV_MAX windows: more buffers than the window, a window made of empty views only
     cs.append(_case("sendmsg", "iterable", [b"a", b"b", b"c", b"d", b"e"], [], [], iov=2))
     cs.append(_case("sendmsg", "iterable", [b"", b"", b"x"], [], [], iov=2))
@@ -464,6 +494,9 @@ def gen_scripts(rng, tr: str, n: int, timeout, ri):
             sock.append(["sent", rng.choice([1, 1, 1, 2, 3, 5, 100000]), p])
     nblocks = sum(1 for e in sock if e[0] in env.BLOCK_KINDS)
     unbounded = timeout is None and ri is None
+    if not unbounded and rng.random() < 0.15:
+        # the descriptor never signals the awaited condition: only bounded waits (retry_interval / rest of the budget) end
+        return sock, [["never", rng.choice([0, 0, 0, 1])] for _ in range(nblocks + 1)]
     for _ in range(nblocks + 1):
         r = rng.random()
         if r < (0.97 if unbounded else 0.6):
@@ -504,6 +537,8 @@ def generate(rng, tier: str, boost: int):
         total = sum(len(c) for c in chunks)
         timeout = rng.choice([None, None, 0, 1, 2, 3, 5, 8])
         ri = rng.choice([None, None, 1, 2, 3, 5])
+        if rng.random() < 0.08:
+            timeout, ri = None, rng.choice([1, 2, 3, 5])     # no time budget x finite retry interval (the clients' default)
         iov = rng.choice([1024, 1024, 1, 2, 3, -1, 0]) if tr == "sendmsg" else 1024
         entry = rng.choice(["packet", "iterable", "iterable", "all"])
         sock, sel = gen_scripts(rng, tr, total, timeout, ri)
